@@ -108,6 +108,34 @@ pub fn run(path: &str) -> i32 {
             }
             return 0;
         }
+        "pass-order" => {
+            let seq: Vec<usize> = j.get("passes").and_then(|c| c.as_array()).map(|a| a.iter().filter_map(|x| x.as_u64()).map(|x| x as usize).collect()).unwrap_or_default();
+            if let Some(y) = rule_yaml {
+                println!("--- rule ---\n{}", y);
+                if let Ok(rule) = eng::load(y) {
+                    let mut cur = Det::of_rule(&rule);
+                    println!("unoptimised: {} {}", cur.canon(), doc.as_ref().map(|d| show3(cur.val3(d))).unwrap_or_default());
+                    for p in &seq {
+                        let c2 = cur.clone();
+                        let pp = *p;
+                        match catch(move || optrep::apply_pass(c2, pp)) {
+                            Ok(d) => cur = d,
+                            Err(m) => {
+                                println!("{} panics: {}", optrep::PASSES[*p], m);
+                                return 0;
+                            }
+                        }
+                        println!("after {:8}: {} {}", optrep::PASSES[*p], cur.canon(), doc.as_ref().map(|d| show3(cur.val3(d))).unwrap_or_default());
+                    }
+                    let set: u8 = seq.iter().fold(0, |a, p| a | (1 << p));
+                    let st = optrep::optimise_replica(&Det::of_rule(&rule), set, &[]);
+                    if let Some((_, last)) = st.stages.last() {
+                        println!("standard order of the same passes: {} {}", last.canon(), doc.as_ref().map(|d| show3(last.val3(d))).unwrap_or_default());
+                    }
+                }
+            }
+            return 0;
+        }
         "optimise-sequence" => {
             let seq: Vec<u8> = j.get("switch_sequence").and_then(|c| c.as_array()).map(|a| a.iter().filter_map(|x| x.as_u64()).map(|x| x as u8).collect()).unwrap_or_default();
             let docs: Vec<MObj> = j.get("documents").and_then(|d| d.as_array()).map(|a| a.iter().filter_map(mobj_from_json).collect()).unwrap_or_default();
